@@ -11,6 +11,7 @@ import (
 	"regexp"
 	"strconv"
 	"strings"
+	"sync"
 	"time"
 
 	wt "github.com/hnakamur/whispertool"
@@ -38,7 +39,7 @@ func (c12) Meta() fw.Meta {
 			"an absent series is the same observable as the all-zero empty series (nil vs zero-length), see DESIGN.md section 4 (fix 0902534)",
 			"error texts are not compared, only success/failure and the not-exist classification",
 		},
-		Obligations: []string{"pairs_view", "pairs_view_raw", "pairs_sum", "pairs_files", "pairs_items", "pairs_success_with_data", "pairs_notexist", "pairs_error", "absent_series_pairs", "escaped_name_pairs", "past_window_pairs", "bad_pattern_pairs", "cli_pairs", "cli_copy_pairs", "cli_diff_remote_side", "path_below_regular_file_pairs", "cases_with_concurrent_clients", "server_socket_writes_delayed", "concurrent_noise_requests_served"},
+		Obligations: []string{"pairs_view", "pairs_view_raw", "pairs_sum", "pairs_files", "pairs_items", "pairs_success_with_data", "pairs_notexist", "pairs_error", "absent_series_pairs", "escaped_name_pairs", "past_window_pairs", "bad_pattern_pairs", "cli_pairs", "cli_copy_pairs", "cli_diff_remote_side", "path_below_regular_file_pairs", "cases_with_concurrent_clients", "listings_repeated_after_tree_change", "reads_while_writer_holds_file", "server_socket_writes_delayed", "concurrent_noise_requests_served"},
 		Workers:     8,
 	}
 }
@@ -384,6 +385,90 @@ func (c12) Run(c *fw.Ctx) {
 			}
 		}
 	})
+	// a request that arrives while a writer holds the file (changes made, not yet synced): through the directory the
+	// read waits for the writer and sees its result; through the server it must be the same
+	if !c.Violated() && !hung && len(rels) > 0 {
+		rel := rels[r.Intn(len(rels))]
+		l := files[rel]
+		if hold, err := wt.Open(filepath.Join(served, rel)); err == nil {
+			a0 := l.Archs[0]
+			for j := 0; j < 4; j++ {
+				hold.UpdatePointForArchive(0, u32(vnow-int64(j)*int64(a0.Step)), wt.Value(7777.25+float64(j)), u32(vnow))
+			}
+			var lt, rt wcmd.TimeSeriesList
+			var lerr, rerr error
+			var wg sync.WaitGroup
+			wg.Add(2)
+			go func() {
+				defer wg.Done()
+				local("view", fw.J{"file": rel, "while": "writer holds the file"}, func() { _, lt, lerr = wcmd.VerifReadWhisperFile(served, rel, -1, 0, u32(vnow), u32(vnow)) })
+			}()
+			go func() {
+				defer wg.Done()
+				remote("view", fw.J{"file": rel, "while": "writer holds the file"}, func() { _, rt, rerr = wcmd.VerifReadWhisperFile(u, rel, -1, 0, u32(vnow), u32(vnow)) })
+			}()
+			time.Sleep(time.Duration(250+r.Intn(200)) * time.Millisecond)
+			hold.Sync()
+			hold.Close()
+			wg.Wait()
+			if !c.Violated() {
+				_, ref, referr := wcmd.VerifReadWhisperFile(served, rel, -1, 0, u32(vnow), u32(vnow))
+				c.Count("reads_while_writer_holds_file", 1)
+				if referr != nil || lerr != nil || rerr != nil {
+					c.Violationf("remote-local-differ:view-while-writer-holds-file", fw.J{"file": rel, "local_err": fmt.Sprint(lerr), "remote_err": fmt.Sprint(rerr), "after_err": fmt.Sprint(referr)},
+						"reads issued while a writer held %s: local error %v, remote error %v", rel, lerr, rerr)
+				} else if dl, dr := tslEqual(ref, lt), tslEqual(ref, rt); dl != "" || dr != "" {
+					c.Violationf("remote-local-differ:view-while-writer-holds-file", fw.J{"file": rel, "local_vs_after": dl, "remote_vs_after": dr},
+						"reads issued while a writer held %s (4 updates pending, synced 250-450 ms later): compared with the state after the writer closed, the directory read differs by %q, the server read by %q", rel, dl, dr)
+				}
+			}
+		}
+	}
+	// the tree changes between two listings of the same pattern (files and item directories appear and disappear
+	// below sub-directories, so the served directory itself keeps its modification time): both sides must follow
+	if !c.Violated() && !hung {
+		fpats := []string{caseDir + "/*/*.wsp", caseDir + "/itemA/*", caseDir + "/item*/*.wsp", caseDir + "/deep/er/*.wsp"}
+		ipats := []string{caseDir + "/*", caseDir + "/item*", caseDir + "/deep/*", caseDir + "/*/*"}
+		listBoth := func(round string) {
+			for _, pat := range fpats {
+				var ln, rn []string
+				var lerr, rerr error
+				local("files", fw.J{"pattern": pat}, func() { ln, lerr = wcmd.VerifGlobFiles(served, pat) })
+				remote("files", fw.J{"pattern": pat}, func() { rn, rerr = wcmd.VerifGlobFiles(u, pat) })
+				pair("files", fw.J{"pattern": pat, "round": round}, lerr, rerr, func() string {
+					if strings.Join(ln, "\n") != strings.Join(rn, "\n") {
+						return fmt.Sprintf("name lists differ (%s): %q vs %q", round, ln, rn)
+					}
+					return ""
+				})
+			}
+			for _, pat := range ipats {
+				var ln, rn []string
+				var lerr, rerr error
+				local("items", fw.J{"pattern": pat}, func() { ln, lerr = wcmd.VerifGlobItems(served, pat) })
+				remote("items", fw.J{"pattern": pat}, func() { rn, rerr = wcmd.VerifGlobItems(u, pat) })
+				pair("items", fw.J{"pattern": pat, "round": round}, lerr, rerr, func() string {
+					if strings.Join(ln, "\n") != strings.Join(rn, "\n") {
+						return fmt.Sprintf("item lists differ (%s): %q vs %q", round, ln, rn)
+					}
+					return ""
+				})
+			}
+		}
+		listBoth("before the change")
+		writeFixture(filepath.Join(served, caseDir, "itemA", "zz-added-later.wsp"), l1, genContent(r, l1, vnow, 0.5), vnow)
+		writeFixture(filepath.Join(served, caseDir, "deep", "er", "added-later.wsp"), l1, genContent(r, l1, vnow, 0.5), vnow)
+		writeFixture(filepath.Join(served, caseDir, "deep", "new-leaf", "n.wsp"), l1, genContent(r, l1, vnow, 0.5), vnow)
+		for rel := range files {
+			if strings.HasPrefix(rel, filepath.Join(caseDir, "itemB")+"/") {
+				os.Remove(filepath.Join(served, rel))
+				delete(files, rel)
+				break
+			}
+		}
+		listBoth("after files were added and removed")
+		c.Count("listings_repeated_after_tree_change", 1)
+	}
 	if so := serverOutput(c); strings.Contains(so, "panic serving") {
 		c.Violationf("server-panic", fw.J{"server_output": truncStr(so[strings.Index(so, "panic serving"):], 3000)}, "the server panicked while answering a request")
 		return
@@ -391,6 +476,11 @@ func (c12) Run(c *fw.Ctx) {
 	if c.Violated() {
 		return
 	}
+	rels = rels[:0]
+	for rel := range files {
+		rels = append(rels, rel)
+	}
+	sortStrings(rels)
 	c12CLI(c, r, u, served, caseDir, rels, files)
 	if sawData && sawNE && sawErr {
 		c.Nontrivial(caseDir, vnow, l1.String(), l2.String())
